@@ -14,6 +14,8 @@ mod c05_dhcpopt;
 mod c05_lldp;
 #[path = "../c05_icmp6.rs"]
 mod c05_icmp6;
+#[path = "../dnsgen.rs"]
+mod dnsgen;
 use erbium::dhcp;
 use erbium::dhcp::dhcppkt;
 use erbium::dhcp::pool;
@@ -129,6 +131,43 @@ fn run_service(args: &Args, out: &mut dyn Write, stats: &mut Stats) {
     }
 }
 
+/// DNS decoder / re-encoder on the message shapes of C14 (kind 200 + the C14 case line): byte
+/// strings through the decoder, structured messages through the encoder incl. messages crossing
+/// 16 KiB with late repeated names; a panic of either is a C05 failure.
+fn run_dns(args: &Args, out: &mut dyn Write) -> Stats {
+    use dnsgen::{Gen, Shape};
+    let sub = Args { seed: args.seed ^ 0x200, n: (args.n / 8).max(50), tier: args.tier.clone(), replay: None, extra: vec![] };
+    let mut g = Gen::new(&sub);
+    for t in dnsgen::at16k_cases(&mut g.r, &mut g.stats) {
+        writeln!(out, "200 {}", t.0).unwrap();
+    }
+    for i in 0..sub.n {
+        let t = if let Some(k) = g.big_slot(i) {
+            match k % 6 {
+                0 => g.k2_unlimited(Some(Shape::Cross16kMany)),
+                1 => g.k2_unlimited(Some(Shape::Near64k)),
+                2 => g.k2_unlimited(Some(Shape::Cross16kFew)),
+                3 => g.k1(Some(Shape::Cross16kMany)),
+                4 => g.k2_unlimited(Some(Shape::Many)),
+                _ => g.k1(Some(Shape::Many)),
+            }
+        } else if g.mid_slot(i).is_some() {
+            g.k2_unlimited(Some(Shape::Cross16kMany))
+        } else {
+            match g.r.below(100) {
+                0..=39 => g.k2_unlimited(None),
+                _ => g.k1(None),
+            }
+        };
+        writeln!(out, "200 {}", t.0).unwrap();
+    }
+    let mut st = Stats::default();
+    for (k, v) in g.stats.counts {
+        st.add(&format!("dns.{}", k), v);
+    }
+    st
+}
+
 fn run(args: &Args, out: &mut dyn Write) -> Stats {
     let mut st = Stats::default();
     c05_log::install();
@@ -141,7 +180,8 @@ fn run(args: &Args, out: &mut dyn Write) -> Stats {
             writeln!(out, "{}", dhcpgen::case_decode(&w).0).unwrap();
         }
     }
-    for sub in [c05_dhcpopt::run(args, out), c05_lldp::run(args, out), c05_icmp6::run(args, out)] {
+    let dns_stats = if args.replay.is_none() { run_dns(args, out) } else { Stats::default() };
+    for sub in [c05_dhcpopt::run(args, out), c05_lldp::run(args, out), c05_icmp6::run(args, out), dns_stats] {
         for (k, v) in sub.counts {
             st.add(&k, v);
         }
